@@ -112,6 +112,34 @@ theorem merge_injective_fairlearn (ws vs : List (List Char)) (hw : ws ≠ []) (h
     (h : join ',' (ws.map (escape '\\' ',')) = join ',' (vs.map (escape '\\' ','))) : ws = vs :=
   merge_injective '\\' ',' (by decide) ws vs hw hv h
 
+/-- Python's `str.replace(a, r)` for a one-character pattern `a` (dependency contract, conformance-tested). -/
+def repl (a : Char) (r : List Char) : List Char → List Char
+  | [] => []
+  | c :: w => (if c = a then r else [c]) ++ repl a r w
+
+theorem repl_append (a : Char) (r u v : List Char) : repl a r (u ++ v) = repl a r u ++ repl a r v := by
+  induction u with
+  | nil => simp [repl]
+  | cons c u ih => simp [repl, ih, List.append_assoc]
+
+/-- `name.replace(e, e+e).replace(s, e+s)` is the escape function the injectivity theorem is about. -/
+theorem repl_repl (e s : Char) (hes : e ≠ s) (w : List Char) :
+    repl s [e, s] (repl e [e, e] w) = escape e s w := by
+  induction w with
+  | nil => simp [repl, escape]
+  | cons c w ih =>
+    simp only [repl, escape, esc]
+    rw [repl_append, ih]
+    by_cases hce : c = e
+    · subst hce
+      simp [repl, hes]
+    · by_cases hcs : c = s
+      · subst hcs
+        simp [repl, hce]
+      · simp [repl, hce, hcs]
+
 end Merge
 
+
 #print axioms Merge.merge_injective_fairlearn
+#print axioms Merge.repl_repl
